@@ -25,7 +25,7 @@ import (
 //	10 R8  S:[REQ s {}, CLOSE z, COUNT c]        P:[EVENT e1]   (CLOSE of an id that is not open)
 //	11 R9  S:[REQ a {kinds:[1]}, REQ b {kinds:[7]}, CLOSE a, CLOSE a, COUNT c]  P:[EVENT e1(k1), EVENT e2(k7)]
 //	12 R10 S:[REQ s {}], S's reader stops after k reads; P1:[EVENT a], P2:[EVENT b] concurrently; then S drains
-const C07Scenarios = 13
+const C07Scenarios = 15
 
 type pubEvent struct {
 	ev       *mocrelay.Event
@@ -62,8 +62,9 @@ func RouterScenario(h *vsched.H) {
 	}
 	var subscribers, publishers []*Conn
 	stalled := false
+	var later func() // second phase: runs after the first one is quiescent (a client that sends when everything before has been answered)
 	switch sc {
-	case 0, 1, 2, 3, 6, 7, 8, 9, 10, 11:
+	case 0, 1, 2, 3, 6, 7, 8, 9, 10, 11, 13, 14:
 		S, P := newConn("S"), newConn("P")
 		subscribers, publishers = []*Conn{S}, []*Conn{P}
 		switch sc {
@@ -110,6 +111,17 @@ func RouterScenario(h *vsched.H) {
 		case 11:
 			go S.Write(ReqMsg("a", k1...), ReqMsg("b", k7...), CloseMsg("a"), CloseMsg("a"), CountMsg("c"))
 			go P.Write(EventMsg(e1), EventMsg(e2))
+		case 13:
+			// a registry entry that is empty for a while (REQ, CLOSE, REQ) while an event is published;
+			// the event published afterwards must reach the re-opened subscription
+			go S.Write(ReqMsg("s1", all...), CloseMsg("s1"), ReqMsg("s2", all...))
+			go P.Write(EventMsg(e1))
+			later = func() { go P.Write(EventMsg(e2)) }
+		case 14:
+			// the very first REQ of a connection racing with a publication; then a later publication
+			go S.Write(ReqMsg("s", all...))
+			go P.Write(EventMsg(e1))
+			later = func() { go P.Write(EventMsg(e2)) }
 		case 9:
 			x := Ev('c', '2', 1, 30)
 			go S.Write(ReqMsg("s", all...), EventMsg(x))
@@ -144,6 +156,10 @@ func RouterScenario(h *vsched.H) {
 		}
 	}
 	h.WaitQuiescent()
+	if later != nil {
+		later()
+		h.WaitQuiescent()
+	}
 	if stalled {
 		// the subscriber has not been reading: every publisher must nevertheless be done
 		for _, p := range publishers {
